@@ -17,14 +17,14 @@ import (
 // the current tree, and the per-rule facts extracted from the action switch.
 type lalr struct {
 	exca, act, pact, pgo, r1, r2, chk, def []int
-	last, flag                            int
-	toknames                              []string
+	last, flag                             int
+	toknames                               []string
 	// actions
-	ruleLen   map[int]int             // from `yyDollar = yyS[yypt-L : yypt+1]`
-	markerOf  map[int]string          // rule -> "pos" | "docstring" for marker rules (empty productions reading lexer state)
-	uses      map[int][]lalrUse       // rule -> marker uses
-	rulePos   map[int]token.Pos       // case clause position
-	ruleLabel map[int]string          // first ast literal / RecordPosition type in the action
+	ruleLen   map[int]int       // from `yyDollar = yyS[yypt-L : yypt+1]`
+	markerOf  map[int]string    // rule -> "pos" | "docstring" for marker rules (empty productions reading lexer state)
+	uses      map[int][]lalrUse // rule -> marker uses
+	rulePos   map[int]token.Pos // case clause position
+	ruleLabel map[int]string    // first ast literal / RecordPosition type in the action
 }
 
 type lalrUse struct {
@@ -278,11 +278,11 @@ func (t *lalr) excaRules(s int) []int {
 
 type lalrSim struct {
 	t        *lalr
-	rev      map[int]map[int]bool    // to -> set of from
-	reach    map[[2]int]bool         // (state, la)
-	markerLA map[int]map[bool]bool   // state where a marker rule reduces -> lookahead-present statuses
-	markerR  map[int]map[int]bool    // state -> marker rules reduced there
-	redAt    map[int]map[int]bool    // rule -> states where it is reduced
+	rev      map[int]map[int]bool  // to -> set of from
+	reach    map[[2]int]bool       // (state, la)
+	markerLA map[int]map[bool]bool // state where a marker rule reduces -> lookahead-present statuses
+	markerR  map[int]map[int]bool  // state -> marker rules reduced there
+	redAt    map[int]map[int]bool  // rule -> states where it is reduced
 }
 
 func b2i(b bool) int {
